@@ -6,6 +6,7 @@
 
 mod byz;
 mod deliveries;
+mod determinism;
 mod entropy;
 mod faults;
 mod guard;
@@ -38,9 +39,24 @@ fn main() {
         std::process::exit(2);
     }
     let code = match args[1].as_str() {
-        "selftest" => selftest::run(),
+        "selftest" => {
+            let r = selftest::run();
+            if r != 0 || args.get(2).map(|s| s != "full").unwrap_or(true) {
+                r
+            } else {
+                determinism::run(&[], Tier::Quick, seed_from_env(), 8)
+            }
+        }
         "c08-child" => props::c08::child_main(&args[2..]),
         "c15-child" => props::c15::child_main(&args[2..]),
+        "det-child" => determinism::child_main(&args[2..]),
+        "determinism" => {
+            // determinism [quick|thorough] [samples] [ids...]
+            let tier = if args.get(2).map(|s| s == "thorough").unwrap_or(false) { Tier::Thorough } else { Tier::Quick };
+            let samples: usize = args.get(3).and_then(|s| s.parse().ok()).unwrap_or(8);
+            let ids: Vec<String> = args.iter().skip(4).cloned().collect();
+            determinism::run(&ids, tier, seed_from_env(), samples)
+        }
         "check" => {
             if args.len() < 4 {
                 eprintln!("usage: falcon-sim check <ID> <quick|thorough>");
